@@ -22,3 +22,38 @@ def run():
             return 1
         print("setup ok (static Coq library %.0fs)" % dt)
     return 0
+
+
+# files whose theorems are 2^24-point sweeps / large computations by the VM: coqchk has no VM and would re-run them with
+# its lazy machine (out of budget); they are accepted by coqc only (said in DESIGN.md section 7)
+SKIP_COQCHK = {"Props/MapSpecProps.v", "Props/DisasmCore.v"}
+
+
+def coqchk():
+    """Re-check the compiled static library with the independent checker coqchk and list the axioms it relies on.
+    One module per process (16 in parallel), each under a time limit; writes /verif/coqchk_report.txt."""
+    mods = []
+    for line in open(os.path.join(vlib.COQ, "_CoqProject")):
+        line = line.strip()
+        if line.endswith(".v") and line not in SKIP_COQCHK:
+            mods.append(line)
+    args = ["-Q", "Lib", "Lib", "-Q", "Props", "Props", "-Q", "Spec", "Spec", "-Q", "Model", "Model", "-Q", "Snapshot", "Snapshot"]
+
+    def one(m):
+        logical = m[:-2].replace("/", ".")
+        rc, out, dt = vlib.sh(["coqchk", "-silent", "-o"] + args + [logical], cwd=vlib.COQ, timeout=3600, env=dict(os.environ))
+        return m, rc, dt, out
+    res = vlib.parallel([lambda m=m: one(m) for m in mods], workers=12)
+    lines = ["coqchk -silent -o over the static library of /verif/coq (one module per run, dependencies re-checked with it)", ""]
+    bad = 0
+    for m, rc, dt, out in res:
+        ax = [l.strip() for l in out.splitlines() if l.strip()]
+        lines.append("%s: %s (%.0fs)" % (m, "OK" if rc == 0 else ("TIMEOUT" if rc == 124 else "FAILED rc=%d" % rc), dt))
+        lines += ["    " + l for l in ax[-25:]]
+        if rc not in (0,):
+            bad += 1
+    lines.append("")
+    lines.append("not re-checked (VM-sized computations, accepted by coqc only): " + ", ".join(sorted(SKIP_COQCHK)))
+    open(os.path.join(vlib.ROOT, "coqchk_report.txt"), "w").write("\n".join(lines) + "\n")
+    print("\n".join(l for l in lines if not l.startswith("    ")))
+    return 1 if bad else 0
